@@ -134,4 +134,10 @@ def cdReadDoc (fuel : Nat) (node : Bytes) : List (BitVec 32 × VAddr) → Option
   | (f, a) :: rest =>
     (cdRead fuel node a).bind fun v => (cdReadDoc fuel node rest).map fun d => (f, v) :: d
 
+/-- `add_field_value` converts the field id with `try_into().expect(..)`: a field id that does not
+fit `FieldValueAddr::field` panics (`none`) -/
+def cdAddDocChecked (node : Bytes) (fvs : List (BitVec 32 × StoredValue)) :
+    Option (Bytes × List (BitVec 32 × VAddr)) :=
+  if fvs.all (fun fv => decide (fv.1.toNat < Gen.CD_FIELD_ID_LIMIT)) then some (cdAddDoc node fvs) else none
+
 end TantivyModel.Store
